@@ -49,7 +49,8 @@ Get(f, k, d) == IF k \in DOMAIN f THEN f[k] ELSE d
 Set(f, k, v) == [x \in DOMAIN f \cup {k} |-> IF x = k THEN v ELSE f[x]]
 Del(f, k) == [x \in DOMAIN f \ {k} |-> f[x]]
 
-StartOfId(i) == IF \E s \in DOMAIN st : st[s].id = i THEN CHOOSE s \in DOMAIN st : st[s].id = i ELSE 0
+StartOfId(i) == IF i \in DOMAIN st /\ st[i].id = i THEN i      \* the drivers number start instances by their id
+                ELSE IF \E s \in DOMAIN st : st[s].id = i THEN CHOOSE s \in DOMAIN st : st[s].id = i ELSE 0
 InCb(p) == Len(Get(cbs, p, <<>>)) > 0
 InFlight(i) == StartOfId(i) # 0 /\ i \notin ended /\ st[StartOfId(i)].ret \in {"none", "nil"}
 WindowOpenFor(i) == \E p \in DOMAIN win : win[p].id = i
@@ -67,13 +68,15 @@ Step(n, e) ==
          /\ cfg' = [maxattempts |-> e.maxattempts, rto |-> e.rto, closeconn |-> e.closeconn, fallback |-> e.fallback]
          /\ Fresh
     [] e.k = "start_call" ->
-         /\ st' = Set(st, e.s, [id |-> e.id, raw |-> e.raw, ret |-> "none", calls |-> 0, afterClose |-> closeRet, t0 |-> e.t])
+         /\ st' = Set(st, e.s, [id |-> e.id, line |-> n, ret |-> "none", calls |-> 0, afterClose |-> closeRet, t0 |-> e.t])
          /\ UNCHANGED << cfg, ws, ended, cbs, win, closeRet, closeOK, connCloses, lastDel, exited, lastNow, pendGarbage, cbSeen, k4, k2, pend, closing >>
     [] e.k = "start_ret" ->
          LET s == st[e.s] IN
          /\ On("C10") => Require(~(e.err # "nil" /\ s.calls > 0), n, "handler-after-start-error",
                                  [s |-> e.s, err |-> e.err, order |-> "handler-before-return", k4 |-> st[e.s].id \in k4])
          /\ On("C15") => Require(s.afterClose => e.err = "closed", n, "start-after-close-not-refused", [s |-> e.s, err |-> e.err])
+         /\ On("C10") => Require((Has(e, "do") /\ e.do /\ e.err = "nil") => s.calls = 1, n, "do-returned-before-its-handler-ran",
+                                 [s |-> e.s, calls |-> s.calls])
          /\ st' = Set(st, e.s, [s EXCEPT !.ret = e.err])
          /\ UNCHANGED << cfg, ws, ended, cbs, win, closeRet, closeOK, connCloses, lastDel, exited, lastNow, pendGarbage, cbSeen, k4, k2, pend, closing >>
     [] e.k = "now" ->
@@ -104,8 +107,8 @@ Step(n, e) ==
                         ELSE LET rs == SelectSeq(prior, LAMBDA w : w.retx) IN rs[Len(rs)].reg
          IN
          /\ (On("C11") /\ s # 0) =>
-              /\ Require(e.raw = st[s].raw, n, "transmission-differs-from-message-at-start",
-                         [id |-> i, transmission |-> k, got_len |-> Len(e.raw), want_len |-> Len(st[s].raw)])
+              /\ Require(e.raw = Trace[st[s].line].raw, n, "transmission-differs-from-message-at-start",
+                         [id |-> i, transmission |-> k, got_len |-> Len(e.raw), want_len |-> Len(Trace[st[s].line].raw)])
               /\ Require(Len(prior) + 1 <= N + 1, n, "too-many-transmissions", [id |-> i, count |-> Len(prior) + 1, limit |-> N + 1])
               /\ Require(k = 0 \/ reg > prevreg + k * Rto, n, "retransmitted-before-deadline",
                          [id |-> i, transmission |-> k, at |-> reg, previous |-> prevreg, via |-> Via(e.p), k4 |-> i \in k4])
@@ -136,11 +139,11 @@ Step(n, e) ==
                          [s |-> e.s, transmissions |-> Len(Get(ws, i, <<>>)), limit |-> N + 1, at |-> e.t, last |-> lastreg, k4 |-> i \in k4])
          /\ On("C12") =>
               /\ Require(e.id = i, n, "event-for-another-transaction", [s |-> e.s, handler_id |-> i, event_id |-> e.id])
-              /\ ((e.kind = "msg") => Require(e.msg = Get(lastDel, e.id, <<>>), n, "message-is-not-the-received-datagram", [s |-> e.s]))
+              /\ ((e.kind = "msg") => Require(\E d \in Get(lastDel, e.id, {}) : Trace[d].raw = e.msg, n, "message-is-not-the-received-datagram", [s |-> e.s]))
          /\ On("C15") => Require(~closeRet, n, "handler-after-close", [s |-> e.s, kind |-> e.kind, p |-> e.p, k4 |-> i \in k4])
          /\ st' = Set(st, e.s, [s EXCEPT !.calls = @ + 1])
          /\ ended' = ended \cup {i}
-         /\ pend' = IF e.kind = "msg" /\ pend # << >> /\ pend.raw = e.msg THEN << >> ELSE pend
+         /\ pend' = IF e.kind = "msg" /\ pend # << >> /\ Trace[pend.line].raw = e.msg THEN << >> ELSE pend
          /\ UNCHANGED << cfg, ws, cbs, win, closeRet, closeOK, connCloses, lastDel, exited, lastNow, pendGarbage, cbSeen, k4, k2, closing >>
     [] e.k = "fallback" ->
          /\ On("C12") =>
@@ -148,9 +151,9 @@ Step(n, e) ==
                                              [id |-> e.id, in_retransmission_window |-> InTimeoutCallback(e.id), k4 |-> e.id \in k4]))
               \* (timeout / closed events of a transaction that reach the fallback handler are not messages: the
               \*  property is silent about them)
-              /\ ((e.kind = "msg") => Require(e.msg = Get(lastDel, e.id, <<>>), n, "message-is-not-the-received-datagram", [id |-> e.id]))
+              /\ ((e.kind = "msg") => Require(\E d \in Get(lastDel, e.id, {}) : Trace[d].raw = e.msg, n, "message-is-not-the-received-datagram", [id |-> e.id]))
          /\ On("C15") => Require(~closeRet, n, "handler-after-close", [kind |-> e.kind, p |-> e.p])
-         /\ pend' = IF e.kind = "msg" /\ pend # << >> /\ pend.raw = e.msg /\ pend.expect # "handler" THEN << >> ELSE pend
+         /\ pend' = IF e.kind = "msg" /\ pend # << >> /\ Trace[pend.line].raw = e.msg THEN << >> ELSE pend   \* (misdelivery is the business of the requirement above)
          /\ UNCHANGED << cfg, st, ws, ended, cbs, win, closeRet, closeOK, connCloses, lastDel, exited, lastNow, pendGarbage, cbSeen, k4, k2, closing >>
     [] e.k = "read_ret" ->
          \* a datagram reaches the reader; a decodable one must end up at its transaction's handler or, when it
@@ -158,7 +161,7 @@ Step(n, e) ==
          LET decodable == Len(e.raw) >= 20 /\ e.raw[5] = 33 /\ e.raw[6] = 18 /\ e.raw[7] = 164 /\ e.raw[8] = 66
                           /\ Len(e.raw) >= 20 + e.raw[3] * 256 + e.raw[4]
          IN /\ pend' = IF decodable /\ ~closing
-                      THEN [id |-> e.id, raw |-> e.raw, expect |-> IF InFlight(e.id) /\ e.id \notin k4 /\ ~InTimeoutCallback(e.id)
+                      THEN [id |-> e.id, line |-> n, expect |-> IF InFlight(e.id) /\ e.id \notin k4 /\ ~InTimeoutCallback(e.id)
                                                                    THEN "handler" ELSE IF cfg.fallback THEN "any" ELSE "none"]
                       ELSE << >>
             /\ UNCHANGED << cfg, st, ws, ended, cbs, win, closeRet, closeOK, connCloses, lastDel, exited, lastNow, pendGarbage, cbSeen, k4, k2, closing >>
@@ -166,21 +169,22 @@ Step(n, e) ==
          \* the reader asks for the next datagram: the previous one has been dealt with
          /\ (On("C12") /\ pend # << >> /\ ~closing) =>
                Require(pend.expect = "none", n, "received-message-not-delivered",
-                       [id |-> pend.id, size |-> Len(pend.raw), expected |-> pend.expect])
+                       [id |-> pend.id, size |-> Len(Trace[pend.line].raw), expected |-> pend.expect])
          /\ pend' = << >>
          /\ UNCHANGED << cfg, st, ws, ended, cbs, win, closeRet, closeOK, connCloses, lastDel, exited, lastNow, pendGarbage, cbSeen, k4, k2, closing >>
     [] e.k = "close_call" ->
          /\ closing' = TRUE
          /\ UNCHANGED << cfg, st, ws, ended, cbs, win, closeRet, closeOK, connCloses, lastDel, exited, lastNow, pendGarbage, cbSeen, k4, k2, pend >>
     [] e.k = "deliver" ->
-         /\ lastDel' = IF e.kind = "msg" THEN Set(lastDel, e.id, e.raw) ELSE lastDel
+         \* every datagram delivered for the id (responses to retransmissions may differ)
+         /\ lastDel' = IF e.kind = "msg" THEN Set(lastDel, e.id, Get(lastDel, e.id, {}) \cup {n}) ELSE lastDel
          /\ UNCHANGED << cfg, st, ws, ended, cbs, win, closeRet, closeOK, connCloses, exited, lastNow, pendGarbage, cbSeen, k4, k2, pend, closing >>
     [] e.k = "close_ret" ->
          /\ On("C15") =>
               /\ Require((e.err \in {"nil", "closeerr"}) = (closeOK = 0), n, "close-result",
                          [err |-> e.err, successful_closes_before |-> closeOK])
               /\ (e.err \notin {"nil", "closeerr"}) \/
-                    /\ Require(e.alive = <<>> /\ "CL" \in exited, n, "goroutine-alive-when-close-returns",
+                    /\ Require(e.alive = <<>> /\ (Has(e, "free") \/ "CL" \in exited), n, "goroutine-alive-when-close-returns",
                                [alive |-> e.alive, exited |-> exited])
                     /\ Require(connCloses = (IF cfg.closeconn THEN 1 ELSE 0), n, "connection-ownership",
                                [conn_closes |-> connCloses, closeconn |-> cfg.closeconn])
